@@ -1,16 +1,22 @@
-(* C05: the two halves composed.  The parser theorems (Proofs/ParserProofs.v) hold for every item
-   list that is well-formed ([items_wf]: positions inside the input, minimum lengths of the
-   data-reference items, float items in the float model's domain) and, for C18, in which an EOF
-   item comes last ([eof_last]).  The scanner theorem (Proofs/LexerProofs.v, [scan_ok]) gives all
-   of that for the items of ANY input except the float-domain condition, which is a restriction of
-   the parser model (Model/NumLit.v parse_float: exact decimal values only), not a property of the
-   scanner: it stays a hypothesis on the input ([floats_ok]). *)
-From Soy Require Import Model.Bytes Model.Outcome Model.Ast Model.Token Model.NumLit Model.ExprParser Model.Parser Model.Lexer.
-From Soy Require Import Generated.Tables Proofs.ParserMeasure Proofs.ParserProofs Proofs.LexerPrim Proofs.LexerProofs.
+(* C05 / C18: the two halves composed.  The parser theorems (Proofs/ParserProofs.v) hold for every
+   item list that is well-formed ([items_wf]: positions inside the input, minimum lengths of the
+   data-reference items) and, for C18, in which an EOF item comes last ([eof_last]).  The scanner
+   theorem (Proofs/LexerProofs.v, [scan_ok]) gives all of that for the items of ANY input, so the
+   composed theorems of this file have no hypothesis on the items left:
+     scan_items_wf_all, scan_eof_last      scan_ok -> items_wf, eof_last
+     lexq_model, lexq_model_wf             the nested scanner of parseQuotedExpr IS the expression-mode
+                                           scanner model, and it satisfies lexq_wf
+     soy_file_total_all, soy_expr_total_all                   C05: bytes -> items -> tree or error
+     scanner_fully_consumed_or_drained_file_all / _expr_all   C18: bytes -> every scanner drained or read
+   strconv.Unquote ([unq]) stays universally quantified: no hypothesis is made about it.
+   (Until session 4 the parser model was partial on float literals and the composed theorems carried
+   [floats_ok]; the statements with that hypothesis are kept below as corollaries for their clients.) *)
+From Soy Require Import Model.Bytes Model.Outcome Model.Ast Model.Token Model.NumLit Model.ExprParser Model.Parser Model.Lexer Model.ParseBytes.
+From Soy Require Import Generated.Tables Proofs.ParserMeasure Proofs.ParserProofs Proofs.LexerPrim Proofs.LexerProofs Proofs.LexShift.
 From Coq Require Import ZifyBool ZifyNat ZifyN Lia.
 Open Scope N_scope.
 
-(* every float item denotes a float of the parser model's domain *)
+(* every float item denotes a float of the parser model's EXACT float domain (no longer needed) *)
 Definition floats_ok (ts : list tok) : Prop :=
   Forall (fun t => t_typ t = itemFloat -> parse_float (t_val t) <> None) ts.
 
@@ -20,14 +26,10 @@ Lemma codes_agree :
   pit_DotIndex = itemDotIndex /\ pit_QuestionDotIdent = itemQuestionDotIdent /\ pit_QuestionDotIndex = itemQuestionDotIndex.
 Proof. vm_compute. repeat split; reflexivity. Qed.
 
-Lemma item_ok_twf lim t : item_ok lim t -> (t_typ t = itemFloat -> parse_float (t_val t) <> None) -> twf lim t.
+Lemma item_ok_twf lim t : item_ok lim t -> twf lim t.
 Proof.
-  intros [Hp Hv] Hf. unfold twf, twfb. destruct codes_agree as (_ & -> & -> & -> & -> & -> & ->).
+  intros [Hp Hv]. unfold twf, twfb. destruct codes_agree as (_ & _ & -> & -> & -> & -> & ->).
   unfold val_min in Hv.
-  assert (Hfl : (if t_typ t =? itemFloat then match parse_float (t_val t) with Some _ => true | None => false end else true) = true).
-  { destruct (t_typ t =? itemFloat) eqn:E6; [|reflexivity].
-    apply N.eqb_eq in E6. specialize (Hf E6). destruct (parse_float (t_val t)); [reflexivity|congruence]. }
-  rewrite Hfl. rewrite Bool.andb_true_r.
   assert (Hp' : (t_pos t <=? lim) = true) by (apply N.leb_le; exact Hp). rewrite Hp'. cbn [andb].
   destruct (N.eqb_spec (t_typ t) itemDollarIdent) as [E1|E1]; destruct (N.eqb_spec (t_typ t) itemDotIdent) as [E2|E2];
   destruct (N.eqb_spec (t_typ t) itemDotIndex) as [E3|E3]; destruct (N.eqb_spec (t_typ t) itemQuestionDotIdent) as [E4|E4];
@@ -36,11 +38,15 @@ Proof.
   try reflexivity; rewrite ?Bool.andb_true_r; apply Nat.leb_le; lia.
 Qed.
 
-Lemma scan_items_wf lim ts : scan_ok lim ts -> floats_ok ts -> items_wf lim ts.
+(* the scanner's items are well-formed for the parser: no condition on the input *)
+Lemma scan_items_wf_all lim ts : scan_ok lim ts -> items_wf lim ts.
 Proof.
-  intros (Hall & _) Hf. unfold items_wf, floats_ok in *. rewrite Forall_forall in *. intros t Hin.
-  apply item_ok_twf; [apply Hall; exact Hin|apply Hf; exact Hin].
+  intros (Hall & _). unfold items_wf in *. rewrite Forall_forall in *. intros t Hin.
+  apply item_ok_twf. apply Hall; exact Hin.
 Qed.
+
+Lemma scan_items_wf lim ts : scan_ok lim ts -> floats_ok ts -> items_wf lim ts.
+Proof. intros H _. apply scan_items_wf_all. exact H. Qed.
 
 Lemma final_last_eof_last ts : final_last ts -> eof_last ts.
 Proof.
@@ -51,7 +57,100 @@ Qed.
 Lemma scan_eof_last lim ts : scan_ok lim ts -> eof_last ts.
 Proof. intros (_ & _ & H). apply final_last_eof_last. exact H. Qed.
 
+(* ---------- the nested scanner of parseQuotedExpr: the expression-mode scanner model
+   ([lexq_model], Model/ParseBytes.v) ---------- *)
 Section Composed.
+Variable uni_letter uni_digit : Z -> bool.
+Hypothesis letter_eof : uni_letter (-1)%Z = false.
+Hypothesis digit_eof : uni_digit (-1)%Z = false.
+
+Lemma lexq_model_runs str :
+  exists ts, lex_items uni_letter uni_digit (lex_budget str) true str = Ok ts /\ lexq_model uni_letter uni_digit str = ts
+             /\ scan_ok (N.of_nat (length str)) ts.
+Proof.
+  destruct (lex_items_total _ _ letter_eof digit_eof true str) as (ts & H1 & H2).
+  exists ts. unfold lexq_model. rewrite H1. auto.
+Qed.
+
+Lemma lexq_model_wf : lexq_wf (lexq_model uni_letter uni_digit).
+Proof.
+  intros str. destruct (lexq_model_runs str) as (ts & _ & -> & Hs). apply scan_items_wf_all. exact Hs.
+Qed.
+
+(* what Model/Parser.v hands to the nested parse -- the expression-mode scanner's items shifted by base --
+   is exactly what the scanner model started at that base (lexExprAt) sends *)
+Lemma nested_scanner_at_base (base : N) str :
+  lex_items_at uni_letter uni_digit (Z.of_N base) (lex_budget str) str
+  = Ok (map (shift_tok base) (lexq_model uni_letter uni_digit str)).
+Proof.
+  destruct (lexq_model_runs str) as (ts & H1 & -> & _).
+  rewrite (lex_items_at_shift _ _ (Z.of_N base) _ _ _ ltac:(lia) H1). f_equal.
+  unfold shift_items. apply map_ext. intros t. unfold sh, shift_tok. rewrite N2Z.id. reflexivity.
+Qed.
+
+Variable unq : bstr -> option bstr.        (* strconv.Unquote: arbitrary *)
+
+(* C05. parse.SoyFile, scanner and parser models together: for EVERY byte string the scanner returns an
+   item list and the parser, run on it with the scanner model as its nested scanner, returns a tree or
+   an error (never PCrash, never PFuel), having received at most |items| + 4 items *)
+Theorem soy_file_total_all (s : bstr) :
+  exists ts, lex_items uni_letter uni_digit (lex_budget s) false s = Ok ts /\
+    is_tree_or_error (po_result (soy_file (N.of_nat (length s)) (lexq_model uni_letter uni_digit) unq ts)) /\
+    (recv_of (po_result (soy_file (N.of_nat (length s)) (lexq_model uni_letter uni_digit) unq ts)) <= length ts + 4)%nat.
+Proof.
+  destruct (lex_items_total _ _ letter_eof digit_eof false s) as (ts & Hl & Hs).
+  exists ts. split; [exact Hl|].
+  pose proof (scan_items_wf_all _ _ Hs) as Hw. split.
+  - apply soy_file_total; [apply lexq_model_wf|assumption].
+  - unfold soy_file. apply parse_linear; [apply lexq_model_wf|assumption|unfold file_fuel; lia].
+Qed.
+
+(* parse.Expr likewise *)
+Theorem soy_expr_total_all (s : bstr) :
+  exists ts, lex_items uni_letter uni_digit (lex_budget s) true s = Ok ts /\
+    is_tree_or_error (po_result (soy_expr (N.of_nat (length s)) ts)) /\
+    (recv_of (po_result (soy_expr (N.of_nat (length s)) ts)) <= length ts + 4)%nat.
+Proof.
+  destruct (lex_items_total _ _ letter_eof digit_eof true s) as (ts & Hl & Hs).
+  exists ts. split; [exact Hl|].
+  pose proof (scan_items_wf_all _ _ Hs) as Hw. split.
+  - apply parse_expr_total; assumption.
+  - apply parse_expr_linear; assumption.
+Qed.
+
+(* C18. parse.SoyFile on EVERY byte string: the call returns a tree or an error, and every scanner it
+   started -- its own, and the expression-mode scanner of every quoted attribute expression -- is
+   drained or had all its items received *)
+Theorem scanner_fully_consumed_or_drained_file_all (s : bstr) :
+  exists ts, lex_items uni_letter uni_digit (lex_budget s) false s = Ok ts /\
+    let o := soy_file (N.of_nat (length s)) (lexq_model uni_letter uni_digit) unq ts in
+    is_tree_or_error (po_result o)
+    /\ (exists own nested, po_scans o = own :: nested /\ sc_sent own = length ts)
+    /\ Forall (fun r => scan_done r = true) (po_scans o).
+Proof.
+  destruct (lex_items_total _ _ letter_eof digit_eof false s) as (ts & Hl & Hs).
+  exists ts. split; [exact Hl|]. unfold soy_file.
+  apply scanner_fully_consumed_or_drained_file;
+    [apply lexq_model_wf|apply scan_items_wf_all; exact Hs|eapply scan_eof_last; exact Hs|unfold file_fuel; lia].
+Qed.
+
+(* parse.Expr (hence every line of soy.ParseGlobals) on EVERY byte string *)
+Theorem scanner_fully_consumed_or_drained_expr_all (s : bstr) :
+  exists ts, lex_items uni_letter uni_digit (lex_budget s) true s = Ok ts /\
+    let o := soy_expr (N.of_nat (length s)) ts in
+    is_tree_or_error (po_result o)
+    /\ (exists own, po_scans o = [own] /\ sc_sent own = length ts)
+    /\ Forall (fun r => scan_done r = true) (po_scans o).
+Proof.
+  destruct (lex_items_total _ _ letter_eof digit_eof true s) as (ts & Hl & Hs).
+  exists ts. split; [exact Hl|].
+  apply scanner_fully_consumed_or_drained_expr. apply scan_items_wf_all. exact Hs.
+Qed.
+
+End Composed.
+
+(* ---- the earlier statements (any well-formed nested scanner; the float hypothesis is now idle) ---- *)
+Section ComposedAnyNested.
 Variable uni_letter uni_digit : Z -> bool.
 Hypothesis letter_eof : uni_letter (-1)%Z = false.
 Hypothesis digit_eof : uni_digit (-1)%Z = false.
@@ -59,9 +158,6 @@ Variable lexq : bstr -> list tok.          (* the nested scanner of parseQuotedE
 Variable unq : bstr -> option bstr.        (* unquoteString *)
 Hypothesis Hlexq : lexq_wf lexq.
 
-(* parse.SoyFile, scanner and parser models together: for EVERY byte string whose float literals lie in
-   the parser model's float domain, the scanner returns an item list and the parser, run on it, returns
-   a tree or an error (never PCrash, never PFuel), having received at most |items| + 4 items *)
 Theorem soy_file_total_composed (s : bstr) :
   exists ts, lex_items uni_letter uni_digit (lex_budget s) false s = Ok ts /\
     (floats_ok ts ->
@@ -69,35 +165,62 @@ Theorem soy_file_total_composed (s : bstr) :
        (recv_of (po_result (parse_file (N.of_nat (length s)) lexq unq parse_expr expr_fuel (file_fuel ts) ts)) <= length ts + 4)%nat).
 Proof.
   destruct (lex_items_total _ _ letter_eof digit_eof false s) as (ts & Hl & Hs).
-  exists ts. split; [exact Hl|]. intros Hf.
-  pose proof (scan_items_wf _ _ Hs Hf) as Hw. split.
+  exists ts. split; [exact Hl|]. intros _.
+  pose proof (scan_items_wf_all _ _ Hs) as Hw. split.
   - apply soy_file_total; assumption.
   - apply parse_linear; [assumption|assumption|unfold file_fuel; lia].
 Qed.
 
-(* parse.Expr likewise *)
 Theorem soy_expr_total_composed (s : bstr) :
   exists ts, lex_items uni_letter uni_digit (lex_budget s) true s = Ok ts /\
     (floats_ok ts ->
        is_tree_or_error (po_result (soy_expr (N.of_nat (length s)) ts)) /\
        (recv_of (po_result (soy_expr (N.of_nat (length s)) ts)) <= length ts + 4)%nat).
 Proof.
-  destruct (lex_items_total _ _ letter_eof digit_eof true s) as (ts & Hl & Hs).
-  exists ts. split; [exact Hl|]. intros Hf.
-  pose proof (scan_items_wf _ _ Hs Hf) as Hw. split.
-  - apply parse_expr_total; assumption.
-  - apply parse_expr_linear; assumption.
+  destruct (soy_expr_total_all _ _ letter_eof digit_eof s) as (ts & Hl & H). exists ts. split; [exact Hl|]. intros _. exact H.
 Qed.
 
-End Composed.
+End ComposedAnyNested.
 
-(* the expression-mode scanner model is a nested scanner in the sense of [lexq_wf] on every string whose
-   float literals are in the domain *)
+(* the same two statements about the composed functions of Model/ParseBytes.v *)
+Definition all_scans_done (o : parse_out) : Prop :=
+  is_tree_or_error (po_result o) /\ po_scans o <> [] /\ Forall (fun r => scan_done r = true) (po_scans o).
+
+Theorem soy_file_bytes_no_goroutine_left (uni_letter uni_digit : Z -> bool) :
+  uni_letter (-1)%Z = false -> uni_digit (-1)%Z = false ->
+  forall unq s, exists o, soy_file_bytes uni_letter uni_digit unq s = Ok o /\ all_scans_done o.
+Proof.
+  intros Hl Hd unq s. destruct (scanner_fully_consumed_or_drained_file_all _ _ Hl Hd unq s) as (ts & H1 & H2 & (own & nested & H3 & _) & H4).
+  eexists. unfold soy_file_bytes. rewrite H1. cbn [bind]. split; [reflexivity|].
+  split; [exact H2|]. split; [rewrite H3; discriminate|exact H4].
+Qed.
+
+Theorem soy_expr_bytes_no_goroutine_left (uni_letter uni_digit : Z -> bool) :
+  uni_letter (-1)%Z = false -> uni_digit (-1)%Z = false ->
+  forall s, exists o, soy_expr_bytes uni_letter uni_digit s = Ok o /\ all_scans_done o.
+Proof.
+  intros Hl Hd s. destruct (scanner_fully_consumed_or_drained_expr_all _ _ Hl Hd s) as (ts & H1 & H2 & (own & H3 & _) & H4).
+  eexists. unfold soy_expr_bytes. rewrite H1. cbn [bind]. split; [reflexivity|].
+  split; [exact H2|]. split; [rewrite H3; discriminate|exact H4].
+Qed.
+
+(* the instance the model runner executes: the unicode tables regenerated from the toolchain *)
+Theorem scanner_fully_consumed_or_drained_file_tbl (unq : bstr -> option bstr) (s : bstr) :
+  exists ts, lex_items is_letter_tbl is_digit_tbl (lex_budget s) false s = Ok ts /\
+    let o := soy_file (N.of_nat (length s)) (lexq_model is_letter_tbl is_digit_tbl) unq ts in
+    is_tree_or_error (po_result o) /\ Forall (fun r => scan_done r = true) (po_scans o).
+Proof.
+  destruct tables_eof as [Hl Hd].
+  destruct (scanner_fully_consumed_or_drained_file_all _ _ Hl Hd unq s) as (ts & H1 & H2 & _ & H3).
+  exists ts. auto.
+Qed.
+
+(* the expression-mode scanner model is a nested scanner in the sense of [lexq_wf] on every string *)
 Lemma lex_expr_items_wf (uni_letter uni_digit : Z -> bool) :
   uni_letter (-1)%Z = false -> uni_digit (-1)%Z = false ->
   forall str, exists ts, lex_items uni_letter uni_digit (lex_budget str) true str = Ok ts /\
                          (floats_ok ts -> items_wf (N.of_nat (length str)) ts).
 Proof.
   intros Hl Hd str. destruct (lex_items_total _ _ Hl Hd true str) as (ts & H1 & H2).
-  exists ts. split; [exact H1|]. intros Hf. apply scan_items_wf; assumption.
+  exists ts. split; [exact H1|]. intros _. apply scan_items_wf_all; assumption.
 Qed.
